@@ -33,6 +33,7 @@ MODULES = [
     (r"^c08_rpc_error_reader", "message::rpc::error::verif_error"),
     (r"^c08_|^c13_|^c14_reply|^cal_", "message::rpc::verif_replies"),
     (r"^c19_frequency", "cli::verif_cli"),
+    (r"^c19_slice_", "task::verif_task_slice"),
     (r"^c16_", "policies::fetch::verif_fetch"),
     (r"^c03_|^c15_", "policies::verif_policies"),
     (r"^c19_", "task::verif_task"),
@@ -531,20 +532,36 @@ CHECKS["C16"] = {
 
 CHECKS["C19"] = {
     "crates": ["netconf", "junos-agent"],
-    "explanation": "Loop::start (the select! loop, interval resets, back-off arithmetic) and handle_task are executed symbolically over the "
-                   "virtual clock of the tokio model: every period in 1..2^40 s, every outcome sequence of 3 consecutive runs, every job "
-                   "duration 0..100 s; SIGHUP/SIGINT/SIGTERM arriving at any instant while the loop waits; Frequency::from for every u64.",
-    "assumptions": ["the outcome of each updater job is chosen by the harness through the tokio model's spawn override (JoinHandle completes "
-                    "with Ok(()) or Err); what happens inside a run is C04's subject",
-                    "tokio::time::Interval modelled after tokio 1.37 (Burst): tick at deadline d re-arms d+period; reset()=now+period; "
-                    "reset_after(x)=now+x; reset_immediately()=now",
-                    "overflow of `backoff * 2` needs 58 consecutive failures and is outside the 3-run bound"],
+    "level_text_prefix": "Bounded model checking of statements lifted verbatim from the real source on every build (a slice, not the whole async fn): ",
+    "explanation": "The back-off recurrence of the daemon loop, decided by induction on the statements of Loop::start themselves: on every build "
+                   "vbuild/slice_task.py lifts the initialisers (`let mut backoff = ..`, `time::interval(..)`), the Ok / Err arms of the match on the "
+                   "job's outcome and the SIGHUP arm verbatim out of the current task.rs into plain functions (the async fn itself does not fit CBMC), "
+                   "and Kani decides, for every period 1 s .. 2^62 s and every back-off value b with one minute <= b <= max(one minute, period): "
+                   "(base) the first failure is retried after exactly one minute; (failure step) the retry delay is b - never below one minute, never "
+                   "above max(one minute, period), never zero - and the next back-off is >= b, > b unless it reached the cap, and inside the "
+                   "invariant again; (success step) the timer is re-armed with the normal period and the back-off is one minute again; (SIGHUP) the "
+                   "timer fires immediately and the back-off is untouched; plus the composed history fail,fail,fail,ok,fail for every period.  "
+                   "Frequency::from for every u64 (0 = one-shot).",
+    "assumptions": ["the slice: statement text is taken verbatim from the current source (tracing statements dropped, `self.period` spelled `period`); "
+                    "that the select! loop runs the Err / Ok arm exactly when a job ended with that outcome, and nothing else touches `backoff` or "
+                    "`interval`, is read off the source shape by the slicer (it refuses any other shape -> INCONCLUSIVE) and is not decided by the solver",
+                    "`interval` is a recorder for reset() / reset_after(d) / reset_immediately(); their meaning (now + period / now + d / now) is tokio 1.37's documented contract",
+                    "NOT covered: the select! loop itself - SIGINT / SIGTERM exit, arrival of signals while a job runs, what handle_task maps to Err "
+                    "(the loop harnesses c19_backoff_and_period / c19_signals exceed 26 GB and stay experimental)",
+                    "periods above 2^62 s are outside the claim (`backoff * 2` can overflow there after more than 56 consecutive failures)"],
     "harnesses": [
-        harness("c19_backoff_and_period", package=AGENT, functions=["task::Loop::start", "task::handle_task", "task::Updater::init_loop"],
-                bounds="period 1..2^40 s, 3 runs, job duration <= 100 s", loops={r"Loop.*start": 5}, timeout={"quick": 1500, "thorough": 3600}, mem_gb=30),
-        harness("c19_signals", package=AGENT, functions=["task::Loop::start (signal arms)"], bounds="one run, then one signal at any time before the timer",
-                loops={r"Loop.*start": 4}, timeout={"quick": 1500, "thorough": 3600}, mem_gb=30),
+        harness("c19_slice_first_failure", package=AGENT, functions=["task::Loop::start (initialisers + Err arm, sliced)"], bounds="every period 1..2^62 s"),
+        harness("c19_slice_failure_step", package=AGENT, functions=["task::Loop::start (Err arm, sliced)"],
+                bounds="every period 1..2^62 s, every back-off in [60 s, max(60 s, period)] (whole seconds); one step = all histories by induction"),
+        harness("c19_slice_success_step", package=AGENT, functions=["task::Loop::start (Ok arm, sliced)"], bounds="every period, every back-off in the invariant"),
+        harness("c19_slice_sighup_step", package=AGENT, functions=["task::Loop::start (SIGHUP arm, sliced)"], bounds="every period, every back-off in the invariant"),
+        harness("c19_slice_history_fffsf", package=AGENT, functions=["task::Loop::start (initialisers, Err and Ok arms, sliced)"],
+                bounds="history fail,fail,fail,ok,fail; every period 1..2^62 s", loops={r"c19_slice_history": 5}),
         harness("c19_frequency_zero_is_one_shot", package=AGENT, functions=["cli::Frequency::from"], bounds="all u64"),
+        harness("c19_backoff_and_period", package=AGENT, functions=["task::Loop::start", "task::handle_task", "task::Updater::init_loop"], tiers=["experimental"],
+                bounds="period 1..2^40 s, 3 runs, job duration <= 100 s", loops={r"Loop.*start": 5}, timeout={"experimental": 3600}, mem_gb=30),
+        harness("c19_signals", package=AGENT, functions=["task::Loop::start (signal arms)"], bounds="one run, then one signal at any time before the timer", tiers=["experimental"],
+                loops={r"Loop.*start": 4}, timeout={"experimental": 3600}, mem_gb=30),
     ],
 }
 
@@ -552,7 +569,7 @@ CHECKS["C19"] = {
 
 # Properties whose checks are registered in MANIFEST.json (the others stay in the registry for
 # development but are listed under not_applicable until their quick tier is reliably green).
-CLAIMED = ["C05", "C06", "C07", "C08", "C09", "C10", "C12", "C13", "C16", "C20"]
+CLAIMED = ["C05", "C06", "C07", "C08", "C09", "C10", "C12", "C13", "C16", "C19", "C20"]
 
 NOT_APPLICABLE = {
     "C01": "end-to-end convergence needs the agent's whole pipeline (fetch readers -> compare -> payload writer -> a reference Junos model) in one query. "
@@ -578,8 +595,6 @@ NOT_APPLICABLE = {
            "the one-step recv harness already exceeds 30 GB after 20 minutes (c05_recv_step_one_arrival, c18_* kept as experimental; root cause: 2 314 SSA "
            "symbols per Result<_, Error> move, DESIGN.md 9.2).  The slot state machine the property relies on (a pending slot stays pending when polled) is "
            "decided by c05_slot_take_step under C05",
-    "C19": "Loop::start embeds the Updater::run future: c19_backoff_and_period and c19_signals reach 26 GB within 15 minutes and never finish (kept as "
-           "experimental); only Frequency::from (c19_frequency_zero_is_one_shot) is decidable, which is too small a part of the property to claim it",
 }
 for _i in range(1, 21):
     assert "C%02d" % _i in NOT_APPLICABLE or "C%02d" % _i in CLAIMED, "C%02d" % _i
